@@ -270,14 +270,49 @@ structure CcittArgs where
   rows : Int
 deriving Repr, DecidableEq, Inhabited
 
-/-- external decoders: zlib inflate and x/image/ccitt (`io.ReadAll(ccitt.NewReader(…))`) -/
+/-- external decoders: zlib inflate and x/image/ccitt (`io.ReadAll(ccitt.NewReader(…))`, the whole
+image the library would yield, without tabula's size limit) -/
 structure Ext where
   inflate : Str → Option Str
   ccitt : CcittArgs → Str → Option Str
 
+/-- `maxCCITTOutput` of `internal/filters/ccittfax.go`: `64 << 20`, the largest decoded image
+(in bytes) `CCITTFaxDecode` hands on -/
+def maxCCITTOutput : Nat := 67108864
+
+/-- the bytes `io.ReadAll(io.LimitReader(reader, maxCCITTOutput+1))` keeps of what the reader
+would yield: its first `maxCCITTOutput + 1` bytes -/
+def ccittKept (out : Str) : Str := out.take (maxCCITTOutput + 1)
+
+/-- what the compiled driver runs for `ccittKept`: the same list, without copying an answer that is
+short enough already (proved equal, `ccittKept_eq_fast`) -/
+def ccittKeptFast (out : Str) : Str :=
+  if out.length ≤ maxCCITTOutput + 1 then out else out.take (maxCCITTOutput + 1)
+
+@[csimp] theorem ccittKept_eq_fast : @ccittKept = @ccittKeptFast := by
+  funext out
+  unfold ccittKept ccittKeptFast
+  split
+  · rename_i h; exact List.take_of_length_le h
+  · rfl
+
+/-- the end of `filters.CCITTFaxDecode` (fix 6dc2783): `out, err := io.ReadAll(io.LimitReader(reader,
+maxCCITTOutput+1)); if len(out) > maxCCITTOutput { return nil, error }; return out, err`.
+`r` is what `io.ReadAll(reader)` would answer without the limit (`none` = the reader fails somewhere:
+before the limit that is `err`, after it the length test fires — an error either way). The
+comparison is `>`: an image of exactly `maxCCITTOutput` bytes passes, one byte more is refused,
+nothing is truncated. -/
+def ccittLimit (r : Option Str) : Option Str :=
+  match r with
+  | none => none
+  | some out =>
+    let kept := ccittKept out
+    if kept.length > maxCCITTOutput then none else some kept
+
 /-- `filters.CCITTFaxDecode`: Columns (default 1728), Rows (0), K (0), BlackIs1 (false) from the
-parameters; Columns < 1 and Rows < 0 are refused; K < 0 selects Group 4, otherwise Group 3;
-Rows = 0 means "detect the height" -/
+parameters; Columns < 1 and Rows < 0 are refused (fix 0d4fd26, before the reader is made); K < 0
+selects Group 4, otherwise Group 3; Rows = 0 means "detect the height"; the decoded image is read
+through `ccittLimit` (at most `maxCCITTOutput` bytes, else an error) -/
 def ccittFaxDecode (rd : CcittArgs → Str → Option Str) (data : Str) (params : Option Params) : Option Str :=
   let p := params.getD {}
   let columns := p.columns.getD 1728
@@ -286,7 +321,7 @@ def ccittFaxDecode (rd : CcittArgs → Str → Option Str) (data : Str) (params 
   let blackIs1 := p.blackIs1.getD false
   if columns < 1 then none
   else if rows < 0 then none
-  else rd { group4 := decide (k < 0), invert := blackIs1, columns := columns, rows := if rows = 0 then -1 else rows } data
+  else ccittLimit (rd { group4 := decide (k < 0), invert := blackIs1, columns := columns, rows := if rows = 0 then -1 else rows } data)
 
 def nFlateDecode : Str := [70, 108, 97, 116, 101, 68, 101, 99, 111, 100, 101]
 def nFl : Str := [70, 108]
